@@ -17,6 +17,7 @@ Record InvM (s : state) : Prop := {
   m_usigs : forall u x, memb x (usigs s u) = true <-> (ufixed s u x = true \/ ugids s u x <> None);
   m_pmux : forall u g x, In x (gget s u g) -> pmux s x = Some u;
   m_pmux2 : forall u x, memb x (usigs s u) = true -> pmux s x = Some u;
+  m_pmux3 : forall u x, pmux s x = Some u -> memb x (usigs s u) = true;
   m_unalloc : forall u x, (nsig s <= u)%nat -> ufixed s u x = false /\ ugids s u x = None /\ usigs s u = [];
   m_fixed_mux : forall u x, ufixed s u x = true -> is_mux s u = true /\ (u < nsig s)%nat
 }.
@@ -39,7 +40,8 @@ Proof.
   - intros u g x. rewrite Hg, E3, E4. apply m_in0.
   - intros u x. rewrite E5, E3, E4. apply m_usigs0.
   - intros u g x. rewrite Hg, E6. apply m_pmux0.
-  - intros u x. rewrite E5, E6. apply m_pmux3.
+  - intros u x. rewrite E5, E6. apply m_pmux4.
+  - intros u x. rewrite E5, E6. apply m_pmux5.
   - intros u x. rewrite E1, E3, E4, E5. apply m_unalloc0.
   - intros u x. rewrite E3, E1. intros F. destruct (m_fixed_mux0 u x F) as [A B]. split; [|exact B].
     unfold is_mux in *. destruct (kind s u) as [| |c g] eqn:K; try discriminate.
@@ -220,6 +222,7 @@ Proof.
   - intros u x. rewrite Eu, Ef, Ei. apply (m_usigs s H).
   - intros u g x. rewrite Hg, Ep. apply (m_pmux s H).
   - intros u x. rewrite Eu, Ep. apply (m_pmux2 s H).
+  - intros u x. rewrite Eu, Ep. apply (m_pmux3 s H).
   - intros u x Hu. rewrite Ef, Ei, Eu. apply (m_unalloc s H). lia.
   - intros u x. rewrite Ef, En. intros F. destruct (m_fixed_mux s H u x F) as [A B]. split; [|lia].
     unfold is_mux in *. rewrite Ek. rewrite upd_other by lia. exact A.
@@ -306,6 +309,9 @@ Proof.
       destruct (Nat.eqb_spec x' x); [contradiction|]. apply (m_pmux2 s H). apply memb_In. exact C.
     + intros C. destruct (Nat.eqb_spec x' x) as [->|NEx]; [|apply (m_pmux2 s H); exact C].
       pose proof (m_pmux2 s H u' x C). congruence.
+  - intros u' x'. rewrite Eu, Ep. unfold upd. destruct (Nat.eqb_spec x' x) as [->|NEx]; [discriminate|].
+    intros C. pose proof (m_pmux3 s H u' x' C) as Hm. destruct (Nat.eqb_spec u' u) as [->|NE]; [|exact Hm].
+    apply memb_In. apply lrem_In. apply memb_In in Hm. split; assumption.
   - intros u' x' Hu. rewrite En in Hu. rewrite Ef, Ei, Eu.
     destruct (m_unalloc s H u' x' Hu) as (A & B & C).
     destruct (Nat.eqb_spec u' u) as [->|NE]; cbn [andb].
@@ -465,6 +471,7 @@ Proof.
     + apply Hgu in Hin. apply (m_pmux s H u k x'). tauto.
     + rewrite Hgo in Hin by exact NE. apply (m_pmux s H u' k x' Hin).
   - intros u' x'. apply (m_pmux2 s H u' x').
+  - intros u' x'. apply (m_pmux3 s H u' x').
   - intros u' x' Hu. cbn in Hu. change (ufixed s' u' x') with (ufixed s u' x'). change (usigs s' u') with (usigs s u'). rewrite Hids'.
     destruct (m_unalloc s H u' x' Hu) as (A & B & C).
     destruct (Nat.eqb_spec u' u) as [->|]; cbn [andb]; [|repeat split; assumption].
@@ -609,6 +616,9 @@ Proof.
     destruct (Nat.eq_dec u' u) as [->|NE]; [rewrite Hus; discriminate|]. rewrite F by exact NE. intros Hm.
     pose proof (m_pmux2 s H u' x' Hm) as Px. destruct (memb x' (usigs s u)) eqn:Em; [|exact Px].
     pose proof (m_pmux2 s H u x' Em). congruence.
+  - intros u' x'. change (usigs s' u') with (usigs s1 u'). change (pmux s' x') with (pmux s1 x'). rewrite P.
+    destruct (memb x' (usigs s u)) eqn:Em; [discriminate|]. intros Cp. pose proof (m_pmux3 s H u' x' Cp) as Hm.
+    destruct (Nat.eq_dec u' u) as [->|NE]; [congruence|]. rewrite F by exact NE. exact Hm.
   - intros u' x' Hu. cbn in Hu. rewrite A in Hu. rewrite Hfx, Hid. change (usigs s' u') with (usigs s1 u').
     destruct (m_unalloc s H u' x' Hu) as (X & Y & Z).
     destruct (Nat.eqb_spec u' u) as [->|NE]; [repeat split; try reflexivity; exact Hus|].
@@ -687,6 +697,10 @@ Proof.
     + intros C. destruct (Nat.eqb_spec x' x) as [->|NEx]; [reflexivity|].
       apply memb_In in C. apply ladd_In in C. destruct C as [C|C]; [contradiction|]. apply (m_pmux2 s H). apply memb_In. exact C.
     + intros C. destruct (Nat.eqb_spec x' x) as [->|NEx]; [rewrite Hother in C by exact NE; discriminate|apply (m_pmux2 s H); exact C].
+  - intros u' x'. rewrite Eu, Ep. unfold upd. destruct (Nat.eqb_spec x' x) as [->|NEx].
+    + intros C. inversion C; subst u'. rewrite Nat.eqb_refl. apply memb_In. apply ladd_In. left; reflexivity.
+    + intros C. pose proof (m_pmux3 s H u' x' C) as Hm. destruct (Nat.eqb_spec u' u) as [->|NE]; [|exact Hm].
+      apply memb_In. apply ladd_In. right. apply memb_In. exact Hm.
   - intros u' x' Hu'. rewrite En in Hu'. rewrite Ef, Ei, Eu. destruct (m_unalloc s H u' x' Hu') as (A & B & C).
     destruct (Nat.eqb_spec u' u) as [->|NE]; [lia|]. cbn [andb]. repeat split; assumption.
   - intros u' x'. rewrite Ef, En. unfold is_mux. rewrite Ek. destruct (Nat.eqb_spec u' u) as [->|NE]; cbn [andb].
@@ -919,6 +933,7 @@ Proof.
   - intros u g x Hin. unfold gget in Hin. cbn in Hin. destruct g; destruct Hin.
   - intros u x. cbn. split; [discriminate|intros [C|C]; [discriminate|congruence]].
   - intros u g x Hin. unfold gget in Hin. cbn in Hin. destruct g; destruct Hin.
+  - intros u x C. cbn in C. discriminate.
   - intros u x C. cbn in C. discriminate.
   - intros u x _. cbn. repeat split.
   - intros u x F. cbn in F. discriminate.
@@ -1217,3 +1232,133 @@ Proof. intros ops Hw. apply membership_cover_reachable. apply ok_hist_of_w. exac
    Properties/C07.v, which may only `exact` lemmas). *)
 Lemma mux_size_proof : forall s u c g, kind s u = KMux c g -> sz s u = (g + selw c)%Z.
 Proof. intros s u c g H. unfold sz. rewrite H. reflexivity. Qed.
+
+(* --- size and selector width ------------------------------------------------------------------- *)
+
+Lemma mux_size_spec : forall s u c g, kind s u = KMux c g -> sz s u = g + selw c.
+Proof. intros s u c g H. unfold sz. rewrite H. reflexivity. Qed.
+
+(* the selector width is the least number of bits (at least one) that can address `count` groups *)
+Lemma selw_spec : forall c, 1 <= c ->
+  1 <= selw c /\ c <= 2 ^ selw c /\ (2 <= c -> 2 ^ (selw c - 1) < c).
+Proof.
+  intros c Hc. unfold selw, calc_size. destruct (Z.eqb_spec (c - 1) 0) as [E|NE].
+  - assert (c = 1) by lia. subst. cbn. lia.
+  - destruct (Z.ltb_spec (c - 1) 0); [lia|].
+    pose proof (Z.log2_spec (c - 1) ltac:(lia)) as [L1 L2]. pose proof (Z.log2_nonneg (c - 1)).
+    replace (Z.log2 (c - 1) + 1 - 1) with (Z.log2 (c - 1)) by lia.
+    replace (Z.log2 (c - 1) + 1) with (Z.succ (Z.log2 (c - 1))) by lia. split; [lia|split; [lia|intros _; lia]].
+Qed.
+
+(* --- the parent chain is well-founded: GetStartBit at every depth ------------------------------- *)
+
+(* a multiplexed signal is strictly smaller than its multiplexer, which is an allocated multiplexer *)
+Lemma parent_bigger : forall s x u, InvA s -> InvM s -> pmux s x = Some u ->
+  sz s x < sz s u /\ (u < nsig s)%nat /\ (x < nsig s)%nat.
+Proof.
+  intros s x u HA H Ep. pose proof (m_pmux3 s H u x Ep) as Hm.
+  assert (Hg : exists g, In x (gget s u g)).
+  { apply (m_usigs s H) in Hm. destruct Hm as [F|F].
+    - destruct (m_fixed_mux s H u x F) as [Hmx Hu]. unfold is_mux in Hmx. destruct (kind s u) as [| |c g] eqn:K; try discriminate.
+      destruct (m_len s H u c g K Hu) as [El Hc]. destruct (m_fixed s H u x F) as [_ B]. exists 0%nat. apply B. rewrite El. lia.
+    - destruct (ugids s u x) as [ids|] eqn:E; [|congruence]. destruct (m_ids s H u x ids E) as (_ & _ & Hne & Hval & Hiff).
+      destruct ids as [|g r]; [congruence|]. destruct (Hval g (or_introl eq_refl)) as [Hg0 _].
+      exists (Z.to_nat g). apply Hiff. rewrite Z2Nat.id by lia. left; reflexivity. }
+  destruct Hg as [g Hin]. pose proof (a_ok s HA (LG u g)) as Hok. cbn [lay lsz] in Hok.
+  pose proof (ok_In _ _ _ _ _ _ Hok Hin) as (B1 & B2 & B3).
+  pose proof (a_alloc s HA (LG u g) x Hin) as Hx.
+  assert (Hu : (u < nsig s)%nat).
+  { destruct (Nat.lt_ge_cases u (nsig s)) as [A|A]; [exact A|]. rewrite (lay_nil_unalloc s u g HA A) in Hin. destruct Hin. }
+  split; [|split; assumption].
+  unfold mux_gsize in B3. unfold sz at 2. destruct (kind s u) as [n|e|c gs] eqn:K; try lia.
+  destruct (m_len s H u c gs K Hu) as [_ Hc]. destruct (selw_spec c Hc) as [W _]. lia.
+Qed.
+
+(* the chain of parents of x, at most f steps *)
+Fixpoint chain (f : nat) (s : state) (x : nat) : list nat :=
+  x :: match f, pmux s x with
+       | S f', Some u => chain f' s u
+       | _, _ => []
+       end.
+
+(* does the chain of x reach a root within f steps? *)
+Fixpoint root_within (f : nat) (s : state) (x : nat) : bool :=
+  match pmux s x with
+  | None => true
+  | Some u => match f with O => false | S f' => root_within f' s u end
+  end.
+
+Lemma abs_start_stable : forall f s x, root_within f s x = true -> abs_start (S f) s x = abs_start f s x.
+Proof.
+  induction f as [|f IH]; intros s x Hr; cbn [root_within] in Hr.
+  - destruct (pmux s x) eqn:E; [discriminate|]. cbn [abs_start]. rewrite E. reflexivity.
+  - destruct (pmux s x) as [u|] eqn:E.
+    + change (abs_start (S (S f)) s x) with (match pmux s x with Some u => abs_start (S f) s u + selw (mux_count s u) + rel s x | None => rel s x end).
+      change (abs_start (S f) s x) with (match pmux s x with Some u => abs_start f s u + selw (mux_count s u) + rel s x | None => rel s x end).
+      rewrite E. rewrite (IH s u Hr). reflexivity.
+    + cbn [abs_start]. rewrite E. reflexivity.
+Qed.
+
+Lemma root_within_mono : forall f s x, root_within f s x = true -> root_within (S f) s x = true.
+Proof.
+  induction f as [|f IH]; intros s x Hr; cbn [root_within] in *.
+  - destruct (pmux s x); [discriminate|reflexivity].
+  - destruct (pmux s x) as [u|]; [|reflexivity]. apply (IH s u Hr).
+Qed.
+
+Lemma chain_length_false : forall f s x, root_within f s x = false -> length (chain (S f) s x) = S (S f).
+Proof.
+  induction f as [|f IH]; intros s x Hr; cbn [root_within] in Hr.
+  - destruct (pmux s x) as [u|] eqn:E; [|discriminate]. cbn [chain]. rewrite E. cbn. reflexivity.
+  - destruct (pmux s x) as [u|] eqn:E; [|discriminate]. change (chain (S (S f)) s x) with (x :: match pmux s x with Some u => chain (S f) s u | None => [] end).
+    rewrite E. cbn [length]. rewrite (IH s u Hr). reflexivity.
+Qed.
+
+(* along the chain the sizes grow strictly, and everything behind the head is allocated *)
+Lemma chain_props : forall f s x, InvA s -> InvM s ->
+  (forall y, In y (tl (chain f s x)) -> sz s x < sz s y /\ (y < nsig s)%nat) /\ NoDup (chain f s x).
+Proof.
+  induction f as [|f IH]; intros s x HA H; cbn [chain].
+  - split; [intros y []|constructor; [intros []|constructor]].
+  - destruct (pmux s x) as [u|] eqn:E; [|split; [intros y []|constructor; [intros []|constructor]]].
+    destruct (parent_bigger s x u HA H E) as (Hlt & Hu & Hx). destruct (IH s u HA H) as [Ht Hnd]. cbn [tl].
+    assert (Hall : forall y, In y (chain f s u) -> sz s x < sz s y /\ (y < nsig s)%nat).
+    { intros y Hy. destruct f; cbn [chain] in Hy.
+      - destruct Hy as [<-|[]]. split; assumption.
+      - destruct Hy as [<-|Hy]; [split; assumption|]. assert (Hy' : In y (tl (chain (S f) s u))) by (cbn [chain tl]; exact Hy).
+        destruct (Ht y Hy') as [A B]. split; [lia|exact B]. }
+    split; [exact Hall|]. constructor; [|exact Hnd]. intros Hin. destruct (Hall x Hin). lia.
+Qed.
+
+Lemma root_within_reach : forall s x, InvA s -> InvM s -> root_within (nsig s) s x = true.
+Proof.
+  intros s x HA H. destruct (root_within (nsig s) s x) eqn:E; [reflexivity|]. exfalso.
+  pose proof (chain_length_false (nsig s) s x E) as Hl.
+  destruct (chain_props (S (nsig s)) s x HA H) as [Ht Hnd].
+  assert (Hnd' : NoDup (tl (chain (S (nsig s)) s x))).
+  { destruct (chain (S (nsig s)) s x); [constructor|]. inversion Hnd; assumption. }
+  assert (Hincl : incl (tl (chain (S (nsig s)) s x)) (seq 0 (nsig s))).
+  { intros y Hy. apply in_seq. destruct (Ht y Hy). lia. }
+  pose proof (NoDup_incl_length Hnd' Hincl) as Hle. rewrite seq_length in Hle.
+  destruct (chain (S (nsig s)) s x) as [|a r]; cbn [length tl] in *; lia.
+Qed.
+
+(* GetStartBit at every nesting depth, in every state satisfying the invariants *)
+Lemma abs_start_bit_inv : forall s x u, InvA s -> InvM s -> pmux s x = Some u ->
+  start_bit s x = start_bit s u + selw (mux_count s u) + rel s x.
+Proof.
+  intros s x u HA H E. unfold start_bit. destruct (parent_bigger s x u HA H E) as (_ & Hu & Hx).
+  destruct (nsig s) as [|n] eqn:En; [lia|].
+  change (abs_start (S n) s x) with (match pmux s x with Some u => abs_start n s u + selw (mux_count s u) + rel s x | None => rel s x end).
+  rewrite E. f_equal. f_equal. symmetry. apply abs_start_stable.
+  (* the chain of u is one shorter than that of x, which ends within S n steps *)
+  pose proof (root_within_reach s x HA H) as Hr. rewrite En in Hr. cbn [root_within] in Hr. rewrite E in Hr. exact Hr.
+Qed.
+
+Lemma abs_start_bit_full_proved : abs_start_bit_full.
+Proof.
+  intros ops Hw x u E. destruct (inv_reachable_w ops Hw) as [HA H]. apply abs_start_bit_inv; assumption.
+Qed.
+
+Lemma start_bit_top : forall s x, pmux s x = None -> start_bit s x = rel s x.
+Proof. intros s x E. unfold start_bit. apply abs_start_top. exact E. Qed.
